@@ -93,6 +93,9 @@ fn main() {
             println!("wrote {n} corpus files under {root}");
             std::process::exit(0);
         }
+        "c16-fresh" => {
+            std::process::exit(props::c16::fresh_child(&args[2..]));
+        }
         "c13-restart" => {
             std::process::exit(props::c13_restart::child_main(&args[2..]));
         }
